@@ -1,8 +1,12 @@
 package vm
 
 import (
+	"bytes"
+	"encoding/json"
 	"fmt"
 	"math/big"
+	"strconv"
+	"strings"
 
 	"github.com/formancehq/go-libs/v5/pkg/types/metadata"
 	"github.com/formancehq/go-libs/v5/pkg/types/time"
@@ -29,16 +33,49 @@ type ScriptV1 struct {
 	Vars map[string]any `json:"vars"`
 }
 
+// UnmarshalJSON keeps JSON numbers of the variables as json.Number (their exact decimal text) instead of float64,
+// so that amounts above 2^53 are not rounded.
+func (s *ScriptV1) UnmarshalJSON(data []byte) error {
+	type aux ScriptV1 // same fields, no methods
+	v := aux(*s)
+	dec := json.NewDecoder(bytes.NewReader(data))
+	dec.UseNumber()
+	if err := dec.Decode(&v); err != nil {
+		return err
+	}
+	*s = ScriptV1(v)
+	return nil
+}
+
+// numberText renders a JSON number without loss: an integer, however it is spelled (100, 1e2, 100.0), as its decimal
+// digits; anything else (fractions, exponents beyond +-999) verbatim: the machine rejects what it cannot parse.
+func numberText(n json.Number) string {
+	s := n.String()
+	if i := strings.IndexAny(s, "eE"); i >= 0 {
+		if e, err := strconv.Atoi(s[i+1:]); err != nil || e > 999 || e < -999 {
+			return s
+		}
+	}
+	if r, ok := new(big.Rat).SetString(s); ok && r.IsInt() {
+		return r.Num().String()
+	}
+	return s
+}
+
 func (s ScriptV1) ToCore() Script {
 	s.Script.Vars = map[string]string{}
 	for k, v := range s.Vars {
 		switch v := v.(type) {
 		case string:
 			s.Script.Vars[k] = v
+		case json.Number:
+			s.Script.Vars[k] = numberText(v)
 		case map[string]any:
 			switch amount := v["amount"].(type) {
 			case string:
 				s.Script.Vars[k] = fmt.Sprintf("%s %s", v["asset"], amount)
+			case json.Number:
+				s.Script.Vars[k] = fmt.Sprintf("%s %s", v["asset"], numberText(amount))
 			case float64:
 				s.Script.Vars[k] = fmt.Sprintf("%s %d", v["asset"], int(amount))
 			}
